@@ -71,6 +71,13 @@ impl TraversalQueue {
 
     /// Clear the traversal queue.
     pub fn clear(&mut self) {
+        #[cfg(aranya_verif)]
+        crate::verif::queue_op(
+            core::ptr::from_ref(self) as usize,
+            &self.entries,
+            self.partition,
+            crate::verif::QueueOp::Clear,
+        );
         self.entries.clear();
         self.partition = 0;
     }
@@ -95,6 +102,13 @@ impl TraversalQueue {
     /// covered status is adopted (old coverage was below the new head).
     /// At the same max_cut, covered flags are OR'd. Lower max_cut is ignored.
     pub fn push_covered(&mut self, loc: Location, covered: bool) -> Result<(), StorageError> {
+        #[cfg(aranya_verif)]
+        crate::verif::queue_op(
+            core::ptr::from_ref(self) as usize,
+            &self.entries,
+            self.partition,
+            crate::verif::QueueOp::PushCovered { loc, covered },
+        );
         if let Some(i) = self.entries.iter().position(|x| x.same_segment(loc)) {
             let was_covered = i >= self.partition;
             let new_covered = if loc.max_cut > self.entries[i].max_cut {
@@ -142,6 +156,13 @@ impl TraversalQueue {
     /// is already present. Used by the convergence pre-pass where
     /// duplicate tracking is needed.
     pub fn push_duplicate(&mut self, loc: Location) -> Result<(), StorageError> {
+        #[cfg(aranya_verif)]
+        crate::verif::queue_op(
+            core::ptr::from_ref(self) as usize,
+            &self.entries,
+            self.partition,
+            crate::verif::QueueOp::PushDuplicate { loc },
+        );
         self.entries.push(loc);
         // All duplicate entries are uncovered.
         let last = self
@@ -164,6 +185,13 @@ impl TraversalQueue {
 
     /// Pop the location with the highest max cut, including its covered flag.
     pub fn pop_covered(&mut self) -> Result<Option<(Location, bool)>, StorageError> {
+        #[cfg(aranya_verif)]
+        crate::verif::queue_op(
+            core::ptr::from_ref(self) as usize,
+            &self.entries,
+            self.partition,
+            crate::verif::QueueOp::PopCovered,
+        );
         let Some((i, _)) = self.entries.iter().enumerate().max_by_key(|&(_, loc)| *loc) else {
             return Ok(None);
         };
@@ -198,6 +226,13 @@ impl TraversalQueue {
     /// Used by the convergence pre-pass. Entries are matched by full
     /// `Location` equality (segment + max_cut), not just max_cut.
     pub fn pop_duplicates(&mut self) -> Result<Option<(Location, usize)>, StorageError> {
+        #[cfg(aranya_verif)]
+        crate::verif::queue_op(
+            core::ptr::from_ref(self) as usize,
+            &self.entries,
+            self.partition,
+            crate::verif::QueueOp::PopDuplicates,
+        );
         let Some(location) = self.entries.iter().max_by_key(|loc| *loc).copied() else {
             return Ok(None);
         };
@@ -242,6 +277,13 @@ impl TraversalQueue {
         threshold: MaxCut,
         mut f: impl FnMut(Location),
     ) -> Result<(), StorageError> {
+        #[cfg(aranya_verif)]
+        crate::verif::queue_op(
+            core::ptr::from_ref(self) as usize,
+            &self.entries,
+            self.partition,
+            crate::verif::QueueOp::DrainAbove { threshold },
+        );
         // Drain from uncovered region.
         let mut i = 0;
         while i < self.partition {
@@ -277,6 +319,17 @@ impl TraversalQueue {
         coverage_mc: MaxCut,
         longest_mc: MaxCut,
     ) -> Result<(), StorageError> {
+        #[cfg(aranya_verif)]
+        crate::verif::queue_op(
+            core::ptr::from_ref(self) as usize,
+            &self.entries,
+            self.partition,
+            crate::verif::QueueOp::CoverUpTo {
+                segment,
+                coverage: coverage_mc,
+                longest: longest_mc,
+            },
+        );
         let Some(i) = self.entries.iter().position(|x| x.segment == segment) else {
             return Ok(());
         };
@@ -304,6 +357,13 @@ impl TraversalQueue {
     /// Drain all entries. Uncovered entries are passed to `f`.
     /// Covered entries are discarded. O(n) single pass.
     pub fn drain_all(&mut self, mut f: impl FnMut(Location)) {
+        #[cfg(aranya_verif)]
+        crate::verif::queue_op(
+            core::ptr::from_ref(self) as usize,
+            &self.entries,
+            self.partition,
+            crate::verif::QueueOp::DrainAll,
+        );
         for i in 0..self.partition {
             f(self.entries[i]);
         }
@@ -670,6 +730,8 @@ fn search_queued<S: Storage + ?Sized>(
     queue: &mut TraversalQueue,
 ) -> Result<Option<Location>, StorageError> {
     while let Some(loc) = queue.pop()? {
+        #[cfg(aranya_verif)]
+        crate::verif::tick();
         debug_assert!(
             loc.max_cut >= address.max_cut,
             "Invariant: we only enqueue locations with at least the target max cut"
@@ -692,6 +754,8 @@ fn search_queued<S: Storage + ?Sized>(
             .iter()
             .find(|skip| skip.max_cut >= address.max_cut)
         {
+            #[cfg(aranya_verif)]
+            crate::verif::probe("skip.jump_taken");
             queue.push(skip)?;
         } else {
             // No valid skip - add prior locations to queue
@@ -849,6 +913,8 @@ pub trait Storage {
         queue.push(start_location)?;
 
         while let Some(loc) = queue.pop()? {
+            #[cfg(aranya_verif)]
+            crate::verif::tick();
             debug_assert!(
                 loc.max_cut >= search_location.max_cut,
                 "Invariant: we only enqueue locations with at least the target max cut"
@@ -871,6 +937,8 @@ pub trait Storage {
                 .iter()
                 .find(|skip| skip.max_cut >= search_location.max_cut)
             {
+                #[cfg(aranya_verif)]
+                crate::verif::probe("skip.jump_taken");
                 queue.push(skip)?;
             } else {
                 // No valid skip - add prior locations to queue
